@@ -1,7 +1,7 @@
 """Child process of the C17 check: build problems in a fresh interpreter under a given
 PYTHONHASHSEED and prior state of numpy's global generator; print component digests as JSON.
 usage: c17_child.py <prior: fresh|seeded|advanced> <task> [<task> ...]
-tasks: small | g1:<horizon> | rand:<ns>:<nd>:<horizon>:<seed> | sym:<k>"""
+tasks: small | g1:<horizon> | rand:<ns>:<nd>:<horizon>:<seed> | sym:<k> | randfee:<ns>:<nd>:<horizon>:<seed>"""
 import json
 import logging
 import os
@@ -92,6 +92,19 @@ def run_task(task):
         out["instance"]["reset"] = fp.digest(fp.mirp_snapshot(m2))
         out.update(three([("arc", m.get_arc_based), ("path", m.get_path_based),
                           ("seq", lambda: m.get_sequence_based(strict=False))]))
+        return out
+    if parts[0] == "randfee":
+        # the random generator with BOTH fee fields given as distributions (every optional random field in use): the order in
+        # which the fields consume the stream must not depend on hash randomisation
+        import dataclasses
+        from scipy.stats import randint
+        from vrpqubo.examples.mirp_random import get_generator
+        ns, nd, h, seed = int(parts[1]), int(parts[2]), float(parts[3]), int(parts[4])
+        gen = dataclasses.replace(get_generator(ns, nd, h), supply_port_fees=randint(1, 9), demand_port_fees=randint(1, 9), seed=seed)
+        m = gen.get_random_mirp()
+        out = {"instance": {"mirp": fp.digest(fp.mirp_snapshot(m))}}
+        out["instance"]["reset"] = fp.digest(fp.mirp_snapshot(gen.get_random_mirp(reset_seed=True)))
+        out.update(three([("arc", m.get_arc_based)]))
         return out
     if parts[0] == "sym":
         # MIRPs with indistinguishable ports: the greedy construction meets exact ties, so whatever random draw
